@@ -1165,6 +1165,7 @@ func (c *Ctx) r069(rule, rel string) {
 	// a comment unless something is written for it
 	{
 		var tokVar, cntVar types.Object
+		tokName := ""
 		var heads []*flow.Node
 		for _, q := range g.Nodes {
 			as, ok := q.Stmt.(*ast.AssignStmt)
@@ -1173,6 +1174,7 @@ func (c *Ctx) r069(rule, rel string) {
 			}
 			if strings.Contains(nospace(str(as.Rhs[0])), ".Shift()") {
 				if id, ok := as.Lhs[0].(*ast.Ident); ok && c.enclosingLoopDepth(as) == 1 {
+					tokName = id.Name
 					tokVar = info.Defs[id]
 					if tokVar == nil {
 						tokVar = info.Uses[id]
@@ -1218,7 +1220,7 @@ func (c *Ctx) r069(rule, rel string) {
 			return hit
 		}
 		if tokVar != nil && cntVar != nil && len(heads) > 0 {
-			key := c.P.NameOf(tokVar) + ".TokenType == xml.CommentToken"
+			key := tokName + ".TokenType == xml.CommentToken"
 			nz := 0
 			var bad []string
 			for _, z := range g.Nodes {
